@@ -49,7 +49,7 @@ Lemma read_unary_bytes_spec : forall bytes off acc cnt (q : nat) rest,
   off < 8 ->
   skipn (N.to_nat off) (bytes_bits bytes) = repeat false q ++ true :: rest ->
   exists r', read_unary_bytes bytes off acc cnt = Some (acc + N.of_nat q, r') /\ rd_bits r' = rest /\ rd_wf r'
-             /\ rd_pos r' = 8 * cnt + off + N.of_nat q + 1 /\ (exists k, r_bytes r' = skipn k bytes).
+             /\ rd_pos r' = 8 * cnt + off + N.of_nat q + 1 /\ cnt <= r_cnt r' /\ r_bytes r' = skipn (N.to_nat (r_cnt r' - cnt)) bytes.
 Proof.
   induction bytes as [|x bs IH]; intros off acc cnt q rest Hoff H.
   - unfold bytes_bits in H. cbn [flat_map] in H. rewrite skipn_nil in H. destruct q; discriminate.
@@ -65,26 +65,27 @@ Proof.
       * unfold rd_bits, rd_wf, rd_pos. cbn [r_bytes r_off r_cnt].
         replace (N.to_nat (7 + 1)) with 8%nat by reflexivity.
         rewrite (skipn_all2 (bits_msb 8 x)) by (rewrite bits_msb_length; lia).
-        split; [reflexivity|]. split; [split; [lia | intros; reflexivity]|]. split; [lia|]. exists 1%nat. reflexivity.
+        split; [reflexivity|]. split; [split; [lia | intros; reflexivity]|]. split; [lia|]. split; [lia|]. replace (cnt + 1 - cnt) with 1 by lia. reflexivity.
       * unfold rd_bits, rd_wf, rd_pos. cbn [r_bytes r_off r_cnt].
         unfold bytes_bits. cbn [flat_map]. fold (bytes_bits bs).
         rewrite skipn_app_le by (rewrite bits_msb_length; lia).
-        split; [reflexivity|]. split; [split; [lia | intros; discriminate]|]. split; [lia|]. exists 0%nat. reflexivity.
+        split; [reflexivity|]. split; [split; [lia | intros; discriminate]|]. split; [lia|]. split; [lia|]. rewrite N.sub_diag. reflexivity.
     + rewrite Hf in H. destruct (all_false_split _ _ _ _ H) as [Hle Hl].
       destruct (IH 0 (acc + (8 - off)) (cnt + 1) (q - N.to_nat (8 - off))%nat rest ltac:(lia) Hl)
-        as (r' & E & Hb & Hwf & Hpos & (k & Hk)).
+        as (r' & E & Hb & Hwf & Hpos & Hc & Hk).
       exists r'. rewrite E. split; [f_equal; f_equal; lia|]. split; [exact Hb|]. split; [exact Hwf|].
-      split; [rewrite Hpos; lia | exists (S k); exact Hk].
+      split; [rewrite Hpos; lia|]. split; [lia|]. rewrite Hk.
+      replace (N.to_nat (r_cnt r' - cnt)) with (S (N.to_nat (r_cnt r' - (cnt + 1)))) by lia. reflexivity.
 Qed.
 
 (* runary on a reader whose next bits are q zeros and a one *)
 Theorem runary_spec r (q : nat) rest :
   rd_wf r -> rd_bits r = repeat false q ++ true :: rest ->
   exists r', runary r = Some (N.of_nat q, r') /\ rd_bits r' = rest /\ rd_wf r'
-             /\ rd_pos r' = rd_pos r + N.of_nat q + 1 /\ (exists k, r_bytes r' = skipn k (r_bytes r)).
+             /\ rd_pos r' = rd_pos r + N.of_nat q + 1 /\ rd_adv r r'.
 Proof.
   intros [Hoff _] H. unfold runary.
-  destruct (read_unary_bytes_spec (r_bytes r) (r_off r) 0 (r_cnt r) q rest Hoff H) as (r' & E & H1 & H2 & H3 & H4).
+  destruct (read_unary_bytes_spec (r_bytes r) (r_off r) 0 (r_cnt r) q rest Hoff H) as (r' & E & H1 & H2 & H3 & H4 & H5).
   exists r'. rewrite E. split; [reflexivity|]. split; [exact H1|]. split; [exact H2|].
-  split; [rewrite H3; unfold rd_pos; lia | exact H4].
+  split; [rewrite H3; unfold rd_pos; lia | apply rd_adv_intro; assumption].
 Qed.
